@@ -126,7 +126,16 @@ fn input_entry(ty: Ty, rng: &mut Rng) -> (String, &'static str, Option<String>) 
       3 | 4 => {
         let a = lit(ty, rng);
         let b = lit(ty, rng);
-        (format!("{},{}", a, b), "disjunction", Some(if rng.chance(1, 2) { a } else { b }))
+        if rng.chance(1, 3) {
+          let alien = rng.pick(&["< 10", "1", ">= 0", "[1..5]", "false"]).to_string();
+          let wit = if rng.chance(1, 2) { a.clone() } else { b.clone() };
+          let mut xs = vec![a, b];
+          let at = rng.below(3) as usize;
+          xs.insert(at, alien);
+          (xs.join(","), "disjunction-mixed-kinds", Some(wit))
+        } else {
+          (format!("{},{}", a, b), "disjunction", Some(if rng.chance(1, 2) { a } else { b }))
+        }
       }
       _ => {
         let a = lit(ty, rng);
@@ -170,8 +179,18 @@ fn input_entry(ty: Ty, rng: &mut Rng) -> (String, &'static str, Option<String>) 
       }
       7 | 8 => {
         let n = 2 + rng.below(2);
-        let xs: Vec<String> = (0..n).map(|_| lit(ty, rng)).collect();
-        (xs.join(","), "disjunction", Some(rng.pick(&xs).clone()))
+        let mut xs: Vec<String> = (0..n).map(|_| lit(ty, rng)).collect();
+        let wit = rng.pick(&xs).clone();
+        let mut kind = "disjunction";
+        if rng.chance(1, 3) {
+          // an alternative of another kind (a string, a comparison with a string, an interval of strings) cannot be
+          // decided for a number: it does not match, and the alternatives after it are still looked at
+          let alien = rng.pick(&["\"a\"", "< \"x\"", ">= \"a\"", "[\"a\"..\"c\"]", "true"]).to_string();
+          let at = rng.below(xs.len() as u64 + 1) as usize;
+          xs.insert(at, alien);
+          kind = "disjunction-mixed-kinds";
+        }
+        (xs.join(","), kind, Some(wit))
       }
       _ => match rng.below(4) {
         0 => (format!("not({})", lit(ty, rng)), "not", None),
@@ -311,7 +330,19 @@ fn gen_table(rng: &mut Rng, policy_ix: usize) -> (GenTable, Vec<Vec<Option<Strin
     } else {
       None
     };
-    let default = if rng.chance(1, 3) { Some(lit(ty, rng)) } else { None };
+    // a default output entry is an expression like any other: now and then it reads an input (its value follows
+    // the input data of each evaluation; an evaluator that computes it once keeps the first evaluation's value)
+    let same_ty: Vec<&InClause> = ins.iter().filter(|c| c.ty == ty).collect();
+    let default = if rng.chance(1, 3) {
+      if !same_ty.is_empty() && rng.chance(1, 3) {
+        let c = rng.pick(&same_ty);
+        Some(if ty == Ty::Num && rng.chance(1, 2) { format!("{} + 1", c.name) } else { c.name.clone() })
+      } else {
+        Some(lit(ty, rng))
+      }
+    } else {
+      None
+    };
     outs.push(OutClause { name, ty, output_values, default });
   }
   let mut rules = vec![];
@@ -800,6 +831,22 @@ fn entry_oracle(entry: &str, v: i64) -> Option<bool> {
 }
 
 /// As `entry_oracle`, for an integer or an (ASCII) string value: strings are ordered by their characters.
+/// The operand of a test read as a value of the kind of `v`: `Some(Some(x))`; `Some(None)` when it is a well-formed
+/// literal of another kind (a comparison across kinds is undecided: the test does not match); `None` when unreadable.
+fn ov_operand(t: &str, v: &OV) -> Option<Option<OV>> {
+  if let Some(x) = ov_parse(t, v) {
+    return Some(Some(x));
+  }
+  let other = match v {
+    OV::I(_) => OV::S(String::new()),
+    OV::S(_) => OV::I(0),
+  };
+  if ov_parse(t, &other).is_some() || matches!(t.trim(), "true" | "false") {
+    return Some(None);
+  }
+  None
+}
+
 fn entry_oracle_v(entry: &str, v: &OV) -> Option<bool> {
   let e = entry.trim();
   let (negated, body) = match e.strip_prefix("not(").and_then(|r| r.strip_suffix(')')) {
@@ -812,24 +859,35 @@ fn entry_oracle_v(entry: &str, v: &OV) -> Option<bool> {
     let ok = if t == "-" {
       true
     } else if let Some(r) = t.strip_prefix("<=") {
-      *v <= ov_parse(r, v)?
+      ov_operand(r, v)?.map_or(false, |x| *v <= x)
     } else if let Some(r) = t.strip_prefix(">=") {
-      *v >= ov_parse(r, v)?
+      ov_operand(r, v)?.map_or(false, |x| *v >= x)
     } else if let Some(r) = t.strip_prefix('<') {
-      *v < ov_parse(r, v)?
+      ov_operand(r, v)?.map_or(false, |x| *v < x)
     } else if let Some(r) = t.strip_prefix('>') {
-      *v > ov_parse(r, v)?
+      ov_operand(r, v)?.map_or(false, |x| *v > x)
     } else if t.contains("..") {
       let (ob, rest) = t.split_at(1);
       let (mid, cb) = rest.split_at(rest.len() - 1);
       let (lo, hi) = mid.split_once("..")?;
-      let (lo, hi) = (ov_parse(lo, v)?, ov_parse(hi, v)?);
-      let l_ok = if ob == "[" { *v >= lo } else { *v > lo };
-      let r_ok = if cb == "]" { *v <= hi } else { *v < hi };
-      l_ok && r_ok
+      match (ov_operand(lo, v)?, ov_operand(hi, v)?) {
+        (Some(lo), Some(hi)) => {
+          let l_ok = if ob == "[" { *v >= lo } else { *v > lo };
+          let r_ok = if cb == "]" { *v <= hi } else { *v < hi };
+          l_ok && r_ok
+        }
+        _ => false,
+      }
     } else {
-      *v == ov_parse(t, v)?
+      ov_operand(t, v)?.map_or(false, |x| *v == x)
     };
+    if negated && !ok && t != "-" {
+      // a negated list with an alternative of another kind: not asserted here
+      let probe = t.trim_start_matches(|c| c == '<' || c == '>' || c == '=').trim();
+      if !t.contains("..") && ov_parse(probe, v).is_none() {
+        return None;
+      }
+    }
     any |= ok;
   }
   Some(if negated { !any } else { any })
